@@ -253,6 +253,8 @@ def run(chk, tier):
                     continue
                 ops.append((key.split("::")[-2] if "::" in key else key, None, key.split("::")[-1], key))
         nops += len(ops)
+        pubfn = {f["path"]: f["pub"] for f in base.facts["fns"]}
+        api_summarised = []
         base_results = {}
         for ident, tr, m, key in ops:
             try:
@@ -263,6 +265,8 @@ def run(chk, tier):
                     try:
                         base_results[key] = eval_op(base, key, summarise=True)
                         summarised.add(key)
+                        if tr is not None or pubfn.get(base.bodies[key]["def"]):
+                            api_summarised.append((ident, m, key))
                     except (Unsupported, SymbolicLoop, Diverged, RecursionError) as e2:
                         base_results[key] = e2
             except (Unsupported, Diverged, RecursionError) as e:
@@ -300,7 +304,7 @@ def run(chk, tier):
                     and b0[2] is r1[2] and b0[3] == r1[3] and sl
                 compared += 1
                 # private helpers are judged through the operations that call them (with the callers' argument values)
-                for kind_, sp_ in (sorted(set(b0[5] + r1[5])) if tr is not None else []):
+                for kind_, sp_ in (sorted(set(b0[5] + r1[5])) if (tr is not None or pubfn.get(base.bodies[key]["def"])) else []):
                     chk.ob("R2", "%s::%s|%s at %s cannot fail" % (ident, m, kind_, sp_), False,
                            "an arithmetic check that only overflow-checked builds contain may fail: such builds panic where the others wrap",
                            where=sp_)
@@ -310,6 +314,24 @@ def run(chk, tier):
                 chk.ob("R1", inst + "|identical value and state effects", ok,
                        "" if ok else "normal forms differ between configurations", where=base.bodies[key]["span"][0],
                        sample={"operation": key, "configs": [base.config, "%s/%s" % oc], "identical": ok} if compared % 97 == 1 else None)
+        # R2 for the operations with data-dependent loops: their profile-only overflow checks need the interval invariants of the
+        # loop summaries, so they are evaluated once more the way C14 evaluates a root (dev facts) and every overflow check left
+        # undischarged is reported (other kinds of assert exist in every profile and are C14's)
+        from . import c14
+        for ident, m, key in api_summarised:
+            try:
+                ev_, st_, args_, ret_, body_, hc_ = c14.eval_root(base, key)
+            except (Unsupported, SymbolicLoop, Diverged, RecursionError):
+                continue
+            seen_ = set()
+            for a in ev_.asserts:
+                if a.kind.startswith("Overflow") and not a.discharged and "rand_core-" not in a.span[0] and ".cargo/registry" not in a.span[0] \
+                        and (a.kind, a.span[0]) not in seen_:
+                    seen_.add((a.kind, a.span[0]))
+                    chk.ob("R2", "%s::%s|%s at %s cannot fail" % (ident, m, a.kind, a.span[0]), False,
+                           "an arithmetic check that only overflow-checked builds contain may fail: such builds panic where the others wrap",
+                           where=a.span[0])
+            chk.ob("R2", "%s::%s|profile-only overflow checks inside its loops are unreachable" % (ident, m), not seen_, "", nontrivial=False)
     chk.extra["operations"] = nops
     chk.extra["compared"] = compared
     chk.extra["compared_through_loop_summaries"] = nsumm
